@@ -190,7 +190,10 @@ impl Parse for IncludeStatement {
             ctx.ident(&self.mod_name),
             Token::from_parsed(
                 ParsedAstToken::IncludeStatement(self.clone()),
-                SymbolKind::Unknown,
+                // The name in `mod <name>;` is a module name. `collect_module_spans` inserts the same
+                // token with `SymbolKind::Module`; inserting it as `Unknown` here made the kind depend
+                // on which of the two insertions came last (it flipped after the first edit of a file).
+                SymbolKind::Module,
             ),
         );
     }
